@@ -261,6 +261,146 @@ func runNested(w *hx.Worker, gr *gfam.Grammar, maxDepth int) {
 	w.DistinctS(fmt.Sprint(depths))
 }
 
+// ---- hand-written grammars over a lexer with multi-line tokens, lexer-level elision and numeric fields
+
+var mlLexer = lexer.MustSimple([]lexer.SimpleRule{
+	{Name: "Ident", Pattern: `[a-zA-Zé]+`},
+	{Name: "Int", Pattern: `[0-9]+`},
+	{Name: "Str", Pattern: `"[^"]*"`},
+	{Name: "comment", Pattern: `/\*[^*]*\*/`},
+	{Name: "Punct", Pattern: `[;,=]`},
+	{Name: "ws", Pattern: `[ \t\n\r]+`},
+})
+
+type MLDoc struct {
+	Items []*MLItem `@@*`
+}
+type MLItem struct {
+	Key   string   `@Ident "="`
+	Str   *string  `(  @Str`
+	Small []uint8  ` | @Int ( "," @Int )*`
+	Words []string ` | @Ident+ ) ";"`
+}
+type MLNums struct {
+	F32  []float32 `( @Int "," )*`
+	I8   int8      `@Int?`
+	Rest []string  `@Ident*`
+}
+
+func runMultiline(w *hx.Worker, quick bool) {
+	pd := participle.MustBuild[MLDoc](participle.Lexer(mlLexer), participle.UseLookahead(2))
+	pn := participle.MustBuild[MLNums](participle.Lexer(mlLexer))
+	alpha := [][]byte{[]byte("a"), []byte("1"), []byte(" "), []byte("\n"), []byte("\""), []byte("é"), []byte("\xff"), []byte(";"), []byte(","), []byte("="), []byte("/*"), []byte("*/"), []byte("9999")}
+	seedsD := []string{"a = \"x\né\" ; b = 1,2,300 ; c = d é ;", "k=/* é\né */ \"s\";\nz = 255 , 256;", "a = \"é\né\nééé\" x"}
+	seedsN := []string{"1, 2, 3, 127 a b", "1e, 4, 128", "99999999999999999999999999999999999999999, 1 x", "3, 300 é"}
+	drive := func(name string, check func(in []byte, fn string) verifOutcome, seeds []string) {
+		for si, seed := range seeds {
+			f := func(in []byte, what string) {
+				key := fmt.Sprintf("multiline %s seed#%d %s :: in=%q", name, si, what, in)
+				w.Count("evaluations", 1)
+				w.Count("multiline_inputs", 1)
+				o := check(in, "m.txt")
+				if o.Class != "" {
+					w.Violate(hx.Violation{Key: key, Class: o.Class, Detail: map[string]any{"detail": o.Detail, "error": o.ErrText}})
+					return
+				}
+				w.Count("outcome:"+o.Kind, 1)
+				w.DistinctS(name + o.Kind + o.ErrText)
+			}
+			verifEdits([]byte(seed), alpha, f)
+			if !quick && len(seed) < 30 {
+				verifEdits([]byte(seed), alpha[:8], func(in1 []byte, w1 string) {
+					verifEdits(in1, alpha[:8], func(in2 []byte, w2 string) { f(in2, w1+" then "+w2) })
+				})
+			}
+		}
+	}
+	drive("doc", func(in []byte, fn string) verifOutcome { return verifCheck(pd, fn, in, 0) }, seedsD)
+	drive("nums", func(in []byte, fn string) verifOutcome { return verifCheck(pn, fn, in, 1) }, seedsN)
+}
+
+// runFlatSub runs in a subprocess with a SMALL stack limit: very long flat inputs (tokens, and runs of
+// tokens elided by the lexer itself) must lex and parse with bounded stack. A stack overflow is fatal
+// and is seen by the parent as a crashed subprocess.
+func runFlatSub(n int) {
+	debug.SetMaxStack(1 << 20)
+	pd := participle.MustBuild[MLDoc](participle.Lexer(mlLexer), participle.UseLookahead(2))
+	pn := participle.MustBuild[MLNums](participle.Lexer(mlLexer))
+	type tdoc struct {
+		Words []string `@Ident*`
+	}
+	pt := participle.MustBuild[tdoc]()
+	cases := []struct {
+		name string
+		f    func() error
+	}{
+		{"lexer-elided run: comments and newlines", func() error {
+			_, err := pd.ParseString("", "a = 1 ;"+strings.Repeat("/* c */\n", n)+"b = 2 ;")
+			return err
+		}},
+		{"many items", func() error { _, err := pd.ParseString("", strings.Repeat("a = b c ;\n", n)); return err }},
+		{"long list of numbers", func() error { _, err := pn.ParseString("", strings.Repeat("1, ", n)+"5 x"); return err }},
+		{"long list in one item", func() error {
+			_, err := pd.ParseString("", "a = 1"+strings.Repeat(",2", n)+";")
+			return err
+		}},
+		{"text/scanner words", func() error { _, err := pt.ParseString("", strings.Repeat("w ", n)); return err }},
+		{"text/scanner comments", func() error { _, err := pt.ParseString("", strings.Repeat("// c\n", n)+"w"); return err }},
+		{"lex error after a long prefix", func() error {
+			_, err := pd.ParseString("", strings.Repeat("a = b ;", n)+"$")
+			if err == nil {
+				return fmt.Errorf("expected a lex error")
+			}
+			return nil
+		}},
+	}
+	for _, c := range cases {
+		fmt.Printf("CASE %s\n", c.name)
+		if err := c.f(); err != nil {
+			fmt.Printf("FAIL %s: %v\n", c.name, err)
+		} else {
+			fmt.Printf("OK %s\n", c.name)
+		}
+	}
+	fmt.Println("DONE")
+}
+
+func runFlat(w *hx.Worker, n int) {
+	cmd := exec.Command(os.Args[0])
+	cmd.Env = append(os.Environ(), fmt.Sprintf("VERIF_TOTALX_FLAT=%d", n))
+	out, err := cmd.CombinedOutput()
+	s := string(out)
+	w.Count("evaluations", int64(strings.Count(s, "CASE ")))
+	w.Count("flat_inputs_under_1MB_stack", int64(strings.Count(s, "OK ")))
+	if err != nil || !strings.Contains(s, "DONE") || strings.Contains(s, "FAIL ") {
+		last := ""
+		for _, l := range strings.Split(s, "\n") {
+			if strings.HasPrefix(l, "CASE ") {
+				last = l
+			}
+		}
+		cls := "flat-input-case-failed"
+		if strings.Contains(s, "stack overflow") || strings.Contains(s, "goroutine stack exceeds") {
+			cls = "stack-overflow-on-flat-input"
+		}
+		w.Violate(hx.Violation{Key: fmt.Sprintf("flat n=%d %s", n, last), Class: cls, Detail: map[string]any{"output": tail(firstN(s, 3000), 3000), "error": fmt.Sprint(err)}})
+	}
+	w.DistinctS("flat" + s[:minI(len(s), 200)])
+}
+
+func firstN(s string, n int) string {
+	if len(s) > n {
+		return s[:n]
+	}
+	return s
+}
+func minI(a, b int) int {
+	if a < b {
+		return a
+	}
+	return b
+}
+
 // ---- examples: driven by test binaries compiled (with an overlaid driver) by build.sh
 
 func exampleNames() []string {
@@ -354,6 +494,7 @@ func plan(c *hx.Ctx) *hx.Plan {
 	for _, ex := range exampleNames() {
 		js = append(js, job{kind: "example", ex: ex})
 	}
+	js = append(js, job{kind: "multiline"}, job{kind: "flat"})
 	maxLen, pump, nest := 3, 1000, 256
 	if !c.Quick() {
 		maxLen, pump, nest = 4, 100000, 512
@@ -383,11 +524,18 @@ func plan(c *hx.Ctx) *hx.Plan {
 				runNested(w, js[i].gr, nest)
 			case "example":
 				runExample(w, js[i].ex, c.Quick())
+			case "multiline":
+				runMultiline(w, c.Quick())
+			case "flat":
+				runFlat(w, map[bool]int{true: 20000, false: 300000}[c.Quick()])
 			}
 		},
 		Describe: func(i int) string {
 			if js[i].kind == "example" {
 				return "example " + js[i].ex
+			}
+			if js[i].gr == nil {
+				return js[i].kind
 			}
 			return js[i].gr.Key()
 		},
@@ -399,6 +547,20 @@ func plan(c *hx.Ctx) *hx.Plan {
 
 func replay(c *hx.Ctx, key string) []hx.Violation {
 	w := hx.NewReplayWorker()
+	if strings.HasPrefix(key, "multiline ") {
+		runMultiline(w, false)
+		var out []hx.Violation
+		for _, v := range w.Violations() {
+			if v.Key == key {
+				out = append(out, v)
+			}
+		}
+		return out
+	}
+	if strings.HasPrefix(key, "flat ") {
+		runFlat(w, 300000)
+		return w.Violations()
+	}
 	if strings.HasPrefix(key, "example ") {
 		name := strings.Fields(key)[1]
 		runExample(w, name, false)
@@ -427,5 +589,11 @@ func replay(c *hx.Ctx, key string) []hx.Violation {
 }
 
 func main() {
+	if s := os.Getenv("VERIF_TOTALX_FLAT"); s != "" {
+		var n int
+		fmt.Sscan(s, &n)
+		runFlatSub(n)
+		return
+	}
 	hx.Main(&hx.Spec{Engine: "totalx", JobTimeout: 3 * time.Minute, Levels: map[string]string{"C06": "exploration"}, Plan: plan, Replay: replay})
 }
